@@ -19,7 +19,7 @@ RULE = ("O: ordered pairs (a,b) of 32-bit timestamps from a boundary lattice (0,
         "event list; non-trivial = at least one table observation was compared with the model.")
 ASSUMPTIONS = ["expiry is judged outside +-1 s of tst+lifetime and only at observation points that follow a processed packet (purging is lazy by design)",
                "timestamp differences of exactly 2^31 ms are not judged"]
-REQUIRED_COUNTERS = ["O.pairs", "H.observations", "H.pv_compared", "H.neighbour_compared", "H.expiry_checked_gone", "H.expiry_checked_present"]
+REQUIRED_COUNTERS = ["H.location_service_lookups_started", "O.pairs", "H.observations", "H.pv_compared", "H.neighbour_compared", "H.expiry_checked_gone", "H.expiry_checked_present"]
 
 M32 = 1 << 32
 HALF = 1 << 31
@@ -94,7 +94,7 @@ def run_o(spec, res):
 
 
 # ------------------------------------------------------------------------------------------ H
-KINDS = ("beacon", "shb", "tsb", "gbc", "gac", "guc_to_me", "guc_fwd", "ls_request", "ls_reply_fwd")
+KINDS = ("beacon", "shb", "tsb", "gbc", "gac", "guc_to_me", "guc_fwd", "ls_request", "ls_reply_fwd", "ls_reply_to_me")
 SINGLE_HOP = ("beacon", "shb")
 
 
@@ -114,6 +114,11 @@ def gen_h(rng, n_events):
         r = rng.random()
         if r < 0.3:
             ev.append({"e": "adv", "dt": rng.choice((0.001, 0.05, 0.4, 1.0, 1.5, 3.0, life - 1.5, life + 1.5, 2.5 * life, rng.uniform(0, life * 1.2)))})
+            continue
+        if r < 0.34:
+            # the station itself looks a source up (unicast request to it): an unknown source gets a placeholder entry with a
+            # pending location service, whatever arrives from that source meanwhile
+            ev.append({"e": "ls_start", "src": rng.randrange(nsrc)})
             continue
         if r < 0.38 and npk:
             # exact byte replay of an earlier packet (what a duplicate on the air looks like)
@@ -158,6 +163,9 @@ def build_packet(kind, pv, sn, me_addr, my_lat, my_lon):
                             {"sn": sn, "so_pv": pv, "de_pv": de}, body)
     if kind == "ls_request":
         return W.enc_packet(bh, {"nh": 0, "ht": W.HT_LS, "hst": 0, "tc": tc0, "mobile": 1, "pl": 0, "mhl": 3}, {"sn": sn, "so_pv": pv, "req_addr": other})
+    if kind == "ls_reply_to_me":
+        de = {"addr": me_addr, "tst": pv["tst"], "lat": my_lat, "lon": my_lon}
+        return W.enc_packet(bh, {"nh": 0, "ht": W.HT_LS, "hst": 1, "tc": tc0, "mobile": 1, "pl": 0, "mhl": 3}, {"sn": sn, "so_pv": pv, "de_pv": de})
     if kind == "ls_reply_fwd":
         de = {"addr": other, "tst": pv["tst"], "lat": my_lat, "lon": my_lon}
         return W.enc_packet(bh, {"nh": 0, "ht": W.HT_LS, "hst": 1, "tc": tc0, "mobile": 1, "pl": 0, "mhl": 3}, {"sn": sn, "so_pv": pv, "de_pv": de})
@@ -183,6 +191,15 @@ def run_h_case(c, res):
                 w.clock.advance(ev["dt"])
                 continue
             now = w.clock.now()
+            if ev["e"] == "ls_start":
+                from vf.gnharness import gn_request
+                try:
+                    A.router.gn_data_request(gn_request("guc", b"\x07\xd1\x00\x00lookup", dest=gn_addr(mid_of(100 + ev["src"])), hop=3))
+                    w.settle()
+                    res.count("H.location_service_lookups_started")
+                except Exception as e:  # noqa
+                    res.violation(f"C08:unicast-request-raises-{type(e).__name__}", f"{e!r}", {**{k: v for k, v in c.items() if k != "events"}, "events": c["events"][:i + 1]})
+                continue
             if ev["e"] == "replay":
                 src, kind, sn_, pv, t_pos, pkt = sent[ev["of"]]
                 fresh = False
@@ -248,6 +265,8 @@ def run_h_case(c, res):
             for s, m in model.items():
                 smid = mid_of(100 + s)
                 ent = table.get_entry(gn_addr(smid))
+                if ent is not None and not ent._pv_received:
+                    ent = None          # the placeholder of a location-service lookup (no valid position vector) carries no information about S
                 age = now - m["t_pos"]
                 tag = "[stored-tst-was-0]" if m["tst0"] else ("[after-unpurged-expiry]" if m["stale_origin"] else "")
                 if abs(age - life) <= 1.0 or m["unjudged"]:
